@@ -131,3 +131,13 @@ def resolve_upvars(prog, body, t, depth=0):
         cur = parent
         depth += 1
     return t, cur
+
+
+def impl_fn(prog, self_ty, trait_ref_part, fn_name):
+    """Path of method `fn_name` in the impl whose self type is self_ty and whose trait reference contains trait_ref_part."""
+    for i in prog.impls:
+        if i["self_ty"] == self_ty and i["trait_ref"] and trait_ref_part in i["trait_ref"]:
+            for it in i["items"]:
+                if it["name"] == fn_name:
+                    return it["path"]
+    return None
